@@ -67,7 +67,9 @@ def twin_runs(chk, stats):
             spec["E"] = 1 if (li // 5) % 2 == 0 else spec["E"]   # ensemble of one: no replication between sampler and model
         if li == 2:
             # more history than any size threshold inside a sampler (the GP sampler treats > 500 points specially)
-            spec["kinds"] = [("halton", 505), ("gp", 2), ("uniform", 2)]
+            # (800, not 505: with 505 points a random 500-subset often leads to the same proposals - measured 1 of 4 seeds
+            # differ; with 800 points 4 of 4)
+            spec["kinds"] = [("halton", 800), ("gp", 3), ("uniform", 2)]
             spec["nparams"], spec["E"], spec["loss"], spec["rl"], n = 2, 1, "minkowski", False, 3
             is_rl = False
         base = rl.run_segments(spec, [n], [])
